@@ -41,6 +41,11 @@ class C60(hc.PProp):
         plan['txns'] = [{'id': index * 100 + k, 'vsize': rng.choice([0, 10, max(preview - 1, 0), preview, preview + 1, 5000, 30000, 40000, 70000]), 'asize': rng.choice([0, 7, 3000, 50000]),
                          'beh': rng.choice(BEHAVIOURS), 'frac': rng.random(), 'seg': rng.choice(['rand', 'whole', 'rand', 'byte'])} for k in range(rng.randint(4, 12))]
         for t in plan['txns']:
+            if rng.random() < 0.25:
+                # a virgin body larger than squid's 64 KB body pipes towards a slow receiver, so the pipe that echoes the virgin body after a 204 fills up
+                t['vsize'] = rng.choice([100000, 300000, 1000000]); t['slow'] = rng.choice([[4096, 2000], [16384, 3000], [1024, 300]])
+                if rng.random() < 0.6:
+                    t['beh'] = rng.choice(['204_in_preview', '204_in_preview', '204', '100_then_204'])
             hc.bound_transfer({'size': t['asize'], 'seg': t['seg'], 'pace': 0}, plan['knobs'])
             if t['seg'] == 'byte' and t['asize'] > 3000:
                 t['seg'] = 'rand'
@@ -69,9 +74,11 @@ class C60(hc.PProp):
                 r = srv.sub('rule t%d has %s' % (t['id'], tok(b' /i%d ' % t['id'])))
                 r.add('send %s' % Payload(hc.response_head(200, [(b'Content-Length', b'%d' % t['vsize']), (b'X-Sim-Ver', vkey.encode())]), vbody).token())
             else:
-                req = Payload(hc.request_head(b'POST', b'http://10.0.0.1/i%d' % t['id'], [(b'Host', b'10.0.0.1'), (b'X-Sim-Req', rid.encode()), (b'Content-Length', b'%d' % t['vsize'])]), vbody).bytes()
+                req = Payload(hc.request_head(b'POST', b'http://10.0.0.1/i%d' % t['id'], [(b'Host', b'10.0.0.1'), (b'X-Sim-Req', rid.encode()), (b'Content-Length', b'%d' % t['vsize'])]), vbody)
                 r = srv.sub('rule t%d has %s' % (t['id'], tok(b' /i%d ' % t['id'])))
-                r.add('expect body timeout 20000000 soft')
+                if t.get('slow'):
+                    r.add('readpace %d %d' % tuple(t['slow']))
+                r.add('expect body timeout 40000000 soft')
                 r.add('send %s' % tok(hc.response_head(200, [(b'Content-Length', b'2')]) + b'ok'))
             # ---- ICAP side: one rule per transaction, consumed in order
             has_body = t['vsize'] > 0 or mode == 'respmod'   # a GET in reqmod has a null-body; a 0-length response body is still a body
@@ -120,7 +127,8 @@ class C60(hc.PProp):
             if beh in ('icap500', 'close_before_head', 'close_mid_head', 'close_mid_body', 'reset_mid_body', 'stall', 'stall_mid_body'):
                 pass
             cl.add('connect %s %d' % (hc.SQUID_IP, hc.SQUID_PORT))
-            cl.add('send %s' % tok(req))
+            cl.add('readpace %d %d' % (tuple(t['slow']) if t.get('slow') and mode == 'respmod' else (0, 0)))
+            cl.add('send %s' % (req.token() if isinstance(req, Payload) else tok(req)))
             cl.add('expect response timeout 60000000 soft')
             cl.add('close')
             cl.add('wait 200000')
